@@ -43,6 +43,9 @@ pub enum Shape {
     N,
     /// the sum of all committed variables, coefficient 1 each (symmetric in the commitments)
     S,
+    /// the newest handle twice, as two adjacent identical terms `x + x` (or `1 + 1`): a term list
+    /// that "compaction" of equal neighbours would change
+    W,
 }
 
 #[derive(Clone, Copy, Debug, PartialEq, Eq, Hash, PartialOrd, Ord)]
@@ -118,6 +121,7 @@ impl Op {
                 Shape::V => "v",
                 Shape::N => "n",
                 Shape::S => "s",
+                Shape::W => "w",
             }
         }
         match self {
@@ -148,6 +152,7 @@ impl Op {
                 'v' => Shape::V,
                 'n' => Shape::N,
                 's' => Shape::S,
+                'w' => Shape::W,
                 _ => return None,
             })
         }
@@ -456,7 +461,8 @@ pub enum Dev<F: PrimeField> {
     /// the k-th explicit constraint's constant is shifted; `both` = on both roles, else verifier only
     KConst { k: usize, delta: F, both: bool },
     /// both roles: the k-th explicit constraint's constant is shifted by an amount derived from the
-    /// constraint's own constant terms (sel 0: -(sum), 1: +(sum), 2: -(first), 3: +(last))
+    /// constraint's own constant terms (sel 0: -(sum), 1: +(sum), 2: -(first), 3: +(last)) or by minus half
+    /// of the constraint's value (sel 4)
     KConstStruct { k: usize, sel: usize },
     /// both roles: the constants of two explicit constraints shifted by +delta and -delta
     /// times m1 resp. m2 (two violated rows whose residuals cancel if the rows' weights are ever
@@ -650,6 +656,10 @@ impl<F: PrimeField> Ctx<F> {
             },
             Shape::N => vec![],
             Shape::S => self.committed.iter().map(|v| (*v, F::one())).collect(),
+            Shape::W => {
+                let v = self.vars.last().copied().unwrap_or(one);
+                vec![(v, F::one()), (v, F::one())]
+            }
             Shape::V => {
                 let g = F::from(self.refcs.gates() as u64);
                 match self.committed.first() {
@@ -841,11 +851,14 @@ pub fn exec_op<F: PrimeField>(op: Op, ctx: &mut Ctx<F>, side: &mut dyn Side<F>) 
                 Dev::KConstStruct { k, sel } if *k == ctx.kcount => {
                     let ones: Vec<F> = t.iter().filter(|x| matches!(x.0, Variable::One())).map(|x| x.1).collect();
                     let sum: F = ones.iter().cloned().sum();
+                    let half = c * F::from(2u64).inverse().unwrap();
                     c += match sel {
                         0 => -sum,
                         1 => sum,
                         2 => -ones.first().cloned().unwrap_or(F::zero()),
-                        _ => ones.last().cloned().unwrap_or(F::zero()),
+                        3 => ones.last().cloned().unwrap_or(F::zero()),
+                        // the constant is halved: what `x + x - c` would need if one `x` were lost
+                        _ => -half,
                     };
                 }
                 Dev::KCoef { k, term, delta } if *k == ctx.kcount && is_v && !t.is_empty() => {
